@@ -190,7 +190,9 @@ def _put_effect(ctx, ns):
     from pyvc.extmodels import sync_method
     a, msg = ns["self"], ns["msg"]
     sync_method(ctx, a.idict["_send_messages"], "put", [msg], {})
-    if issubclass(msg.cls, B.DiameterRequest):
+    plain_request = not issubclass(msg.cls, B.DiameterAnswer) and \
+        ctx.truth(ctx.call_function(B.DiameterHeader.is_request, [msg.idict["_header"]], {}))
+    if issubclass(msg.cls, B.DiameterRequest) or plain_request:
         a.idict["end_to_end_identifiers"].append(
             ctx.call_sym_method(msg.idict["_header"].slots["_end_to_end"], "hex", [], {}))
     return None
@@ -199,7 +201,16 @@ def _put_effect(ctx, ns):
 def _any_message():
     from contracts.assoc import template
     return T.OneOf(template(M.CEA, CMD_CE, False), template(M.DWA, CMD_DW, False), template(M.DPA, CMD_DP, False),
-                   template(M.DWR, CMD_DW, True), template(M.DPR, CMD_DP, True), template(M.CER, CMD_CE, True))
+                   template(M.DWR, CMD_DW, True), template(M.DPR, CMD_DP, True), template(M.CER, CMD_CE, True),
+                   # application traffic: the generic classes and a plain DiameterMessage of either kind
+                   inbound(flags=T.Const(b"\x80")), inbound(flags=T.Const(b"\x40")),
+                   T.Obj(B.DiameterRequest, idict={"_header": _hs(), "_avps": T.ListOf(), "_loaded": T.Const(False)}),
+                   T.Obj(B.DiameterAnswer, idict={"_header": _hs(), "_avps": T.ListOf(), "_loaded": T.Const(False)}))
+
+
+def _hs():
+    from contracts.common import header_shape
+    return header_shape()
 
 
 def snap_sendq(self):
@@ -208,7 +219,7 @@ def snap_sendq(self):
 
 
 @contract("bromelia.setup.DiameterAssociation.put_message_into_send_queue", prop="C07", name="_",
-          also=("C06",))
+          also=("C06", "C05"))
 class _Put:
     """the message object itself joins the send queue (nothing is serialised yet); the association
     lock is free again afterwards; a request's End-to-End id is remembered"""
@@ -229,7 +240,8 @@ class _Put:
         return result is None and self.lock.st["held"] == False
 
     def ensures_request_e2e_remembered(self, msg):
-        if is_instance_of(msg, B.DiameterRequest):
+        if is_instance_of(msg, B.DiameterRequest) or \
+                (not is_instance_of(msg, B.DiameterAnswer) and unbe(msg._header._flags) & 0x80 == 0x80):
             return self.end_to_end_identifiers == ghost_get("e2e0") + [msg._header._end_to_end.hex()]
         return self.end_to_end_identifiers == ghost_get("e2e0")
 
@@ -503,6 +515,8 @@ class _SelectorSummary:
     """hand-over point to the transport thread (C05's subject): here only WHAT is handed over matters"""
     args = {"self": T.Obj(TR.TcpClient, idict={}), "mode": T.Const("rw"), "msg": T.Bytes()}
     at_calls = True
+    accepts = lambda ctx, ns: "selector" not in ns["self"].idict       # noqa: E731  (a modelled selector: real body)
+    native_accepts = lambda self: not hasattr(self, "selector")        # noqa: E731
     log_entry = wire_entry
     returns = T.NoneS
     proof = "table"
